@@ -31,6 +31,20 @@ func (u *upgrade) IsZero() bool {
 	return u.NoRequest+u.NoResponse+u.Heartbeat+u.Stream == 0
 }
 
+// valid reports whether the flags form one of the five combinations of the
+// protocol: a unary request, a heartbeat, or the open / message / close of a stream.
+func (u *upgrade) valid() bool {
+	switch {
+	case u.Heartbeat == heartbeat:
+		return u.NoRequest == noRequest && u.NoResponse == noResponse && u.Stream == 0
+	case u.Stream == openStream, u.Stream == closeStream:
+		return u.NoRequest == noRequest && u.NoResponse == noResponse
+	case u.Stream == streaming:
+		return u.NoRequest == 0 && u.NoResponse == noResponse
+	}
+	return u.NoRequest == 0 && u.NoResponse == 0
+}
+
 func (u *upgrade) Marshal(buf []byte) ([]byte, error) {
 	var size uint64 = upgradeSize
 	if uint64(cap(buf)) >= size {
